@@ -137,6 +137,7 @@ fn scripts(tier: Tier) -> Vec<Vec<R>> {
         R::Stream(vec![Ev::Text], Term::Done),
         R::Stream(vec![Ev::Text], Term::CloseNoDone),
         R::Stream(vec![], Term::Abort),
+        R::Stream(vec![Ev::Text], Term::Abort),
         R::Http(500),
         R::Empty,
         R::Stream(vec![Ev::Completed, Ev::CallWrite], Term::Done),
@@ -155,6 +156,76 @@ fn scripts(tier: Tier) -> Vec<Vec<R>> {
         }
     }
     out
+}
+
+/// A connection abort that reached the client after at least one server-sent event of the same
+/// response had been mapped (a transport-error frame following a provider event frame).
+fn mid_stream_aborts(events: &[rip_kernel::Event]) -> u64 {
+    let mut seen_raw: std::collections::HashSet<String> = std::collections::HashSet::new();
+    let mut n = 0;
+    for e in events {
+        if let rip_kernel::EventKind::ProviderEvent { raw, errors, data, .. } = &e.kind {
+            if raw.is_some() {
+                seen_raw.insert(e.session_id.clone());
+            } else if data.is_none() && !errors.is_empty() && seen_raw.contains(&e.session_id) {
+                n += 1;
+            }
+        }
+    }
+    n
+}
+
+/// C01's sequential part for the ways a provider response can END: every script of the quick
+/// alphabet in which some response does not end with the terminal marker (close, abort after the
+/// events were delivered, cut inside an event, HTTP error, empty body), first and follow-up
+/// responses. Oracle: every stream of the log reads 0..n-1 and validated replay passes.
+pub fn termination_numbering_sweep(report: &Report) {
+    let rt = new_mt_rt();
+    let provider = Provider::start(&rt);
+    let all: Vec<Vec<R>> = scripts(Tier::Quick).into_iter().filter(|s| s.iter().any(|r| !matches!(r, R::Stream(_, Term::Done)))).collect();
+    report.set_extra("provider_termination_scripts", json!(all.len()));
+    let counter = std::sync::atomic::AtomicUsize::new(0);
+    let aborts = std::sync::atomic::AtomicU64::new(0);
+    let pool = rayon::ThreadPoolBuilder::new().num_threads(16).build().expect("pool");
+    pool.install(|| {
+        all.par_iter().for_each(|script| {
+            if report.over_cap() {
+                return;
+            }
+            let n = counter.fetch_add(1, std::sync::atomic::Ordering::SeqCst);
+            let key = format!("c01t-{n}/v1/responses");
+            provider.script(&key, script.iter().enumerate().map(|(i, r)| resp_of(r, i)).collect(), false);
+            let app = App::new(rt.clone(), Some(config(provider.endpoint(&key))));
+            let thread = app.ensure_thread();
+            let _ = app.post_and_wait(&thread, "hello", None, Duration::from_secs(5));
+            report.eval(Some(&("termination", script)));
+            report.count("provider_termination_runs_numbering_checked", 1);
+            let events = app.log_events();
+            aborts.fetch_add(mid_stream_aborts(&events), std::sync::atomic::Ordering::SeqCst);
+            let case = json!({"engine": "P", "harness": "c07.termination_numbering", "script": format!("{script:?}")});
+            let mut next: std::collections::HashMap<(rip_kernel::StreamKind, String), u64> = std::collections::HashMap::new();
+            let mut bad = None;
+            for e in &events {
+                let k = next.entry((e.stream_kind(), e.stream_id().to_string())).or_insert(0);
+                if e.seq != *k {
+                    bad = Some(format!("stream {:?}: seq {} where {} is due ({})", e.stream_kind(), e.seq, *k, crate::common::compact(&serde_json::to_value(&e.kind).unwrap_or_default(), 200)));
+                    break;
+                }
+                *k += 1;
+            }
+            if let Some(msg) = bad {
+                report.violation("C01:stream_numbering:provider_termination", case, &msg);
+            } else if let Err(e) = rip_log::EventLog::new(app.data.join("events.jsonl")).and_then(|l| l.replay_validated()) {
+                report.violation("C01:validated_replay:provider_termination", case, &format!("validated replay fails: {e}"));
+            }
+            provider.forget(&key);
+        });
+    });
+    let a = aborts.load(std::sync::atomic::Ordering::SeqCst);
+    report.count("mid_stream_aborts_observed", a);
+    if a == 0 && !report.over_cap() {
+        crate::common::machinery_failure("c07.termination_numbering: no scripted abort reached the client after its events (provx::ABORT_DELAY_MS too short for this machine?)");
+    }
 }
 
 fn case_json(what: &str, detail: Value) -> Value {
@@ -186,6 +257,7 @@ fn run_script(report: &Report, rt: &Arc<tokio::runtime::Runtime>, provider: &Pro
         report.count("tool_started_frames", ev.iter().filter(|e| matches!(e.kind, rip_kernel::EventKind::ToolStarted { .. })).count() as u64);
         report.count("provider_event_frames", ev.iter().filter(|e| matches!(e.kind, rip_kernel::EventKind::ProviderEvent { .. })).count() as u64);
         report.count("runs_ended", ev.iter().filter(|e| matches!(e.kind, rip_kernel::EventKind::ContinuityRunEnded { .. })).count() as u64);
+        report.count("mid_stream_aborts_observed", mid_stream_aborts(&ev));
     }
     judge(report, &app, "provider_script", detail, "provider_script");
     provider.forget(key);
